@@ -294,6 +294,45 @@ def identity_comparisons(repo, func):
     return out
 
 
+def partial_accumulations_in_try(func):
+    """try: <loop that accumulates into several names> except X: <does not re-raise>.  When the exception interrupts the loop
+    every accumulator stays at the partial value of the iterations done so far; a handler that resets only some of them
+    leaves the others silently wrong.  -> [(line, accumulator, handler text)]"""
+    out = []
+    for t in ast.walk(func.node):
+        if not isinstance(t, ast.Try):
+            continue
+        accs = {}
+        for lp in [n for st in t.body for n in ast.walk(st) if isinstance(n, (ast.For, ast.While))]:
+            for n in ast.walk(lp):
+                if isinstance(n, ast.AugAssign) and isinstance(n.target, ast.Name):
+                    accs.setdefault(n.target.id, n.lineno)
+                if isinstance(n, ast.Expr) and isinstance(n.value, ast.Call) and isinstance(n.value.func, ast.Attribute) and n.value.func.attr in ('append', 'extend', 'add', 'update') \
+                        and isinstance(n.value.func.value, ast.Name):
+                    accs.setdefault(n.value.func.value.id, n.lineno)
+        if len(accs) < 2:
+            continue
+        for h in t.handlers:
+            if any(isinstance(n, ast.Raise) for st in h.body for n in ast.walk(st)):
+                continue
+            reset = {x.id for st in h.body for x in ast.walk(st) if isinstance(x, ast.Name) and isinstance(x.ctx, ast.Store)}
+            for a, ln in sorted(accs.items()):
+                if a not in reset:
+                    out.append((ln, a, 'except %s' % (ast.unparse(h.type) if h.type is not None else '')))
+                    break
+    return out
+
+
+def fancy_index_updates(func):
+    """arr[[i, j, ...]] += v  /  arr[[f(x) for x in xs]] += v : numpy evaluates the right-hand side once and assigns, so an index
+    that occurs twice is counted once (np.add.at is the accumulating form); a Python list raises TypeError.  -> [(line, text)]"""
+    out = []
+    for n in ast.walk(func.node):
+        if isinstance(n, ast.AugAssign) and isinstance(n.target, ast.Subscript) and isinstance(n.target.slice, (ast.List, ast.ListComp)):
+            out.append((n.lineno, ast.unparse(n)[:80]))
+    return out
+
+
 def partial_key_caches(repo, func):
     """a value computed from the function's inputs is kept in MODULE-LEVEL state (a global rebound under `global`, or an entry
     stored into a module-level container) and reused later, while the test that decides on reuse / the key it is filed
